@@ -1477,9 +1477,12 @@ def check_distance(ctx, real, level, d, dt, fast, pd, planar, ov, SA, SB, regA, 
     """(C) the compiled model of Object / MeshVolumeRegion.minimumDistanceTo on what the real call read;
     (S) the reported distance against the oracle: never positive on overlap, the certified gap otherwise"""
     fd = dt.fcl_dist if dt.fcl_dist is not None else 0.0
+    model_ok = True
     if not fast and dt.fcl_dist is None:
+        # the real code answered without FCL although the fast-path condition of the model does not hold:
+        # the tie is broken; the answer is still compared with the oracle below (S)
         ctx.broken("correspondence", "minimumDistanceTo did not call fcl.distance off the planar fast path", tag)
-        return
+        model_ok = False
     fills = [dt.intersects] if (dt.intersects is not None or fast) else [False, True]
     if level == "object":
         pa, pb, za, zb = planar
@@ -1499,11 +1502,12 @@ def check_distance(ctx, real, level, d, dt, fast, pd, planar, ov, SA, SB, regA, 
         if path != want or Fr(v) != Fr(d):
             ctx.broken("correspondence", "minimumDistanceTo model vs the real minimumDistanceTo",
                        f"{lines[0]}: lean={outs[0]} python={d} fcl.distance={dt.fcl_dist} intersects={nested} fast={fast}")
-    lean_jobs.append((lines, after))
+    if model_ok:
+        lean_jobs.append((lines, after))
     geoms = dt.geoms or ("-", "-")
     if not fast:
         ctx.hist("distance_geometry", "/".join(geoms))
-    gname = "planar" if fast else "fcl:" + ("bvh" if set(geoms) <= {"BVHModel"} else "gjk")
+    gname = "planar" if fast else "no-fcl" if dt.fcl_dist is None else "fcl:" + ("bvh" if set(geoms) <= {"BVHModel"} else "gjk")
     if level == "region" and composed:
         # PARKED (see notes/design/C04.md, next steps): the property speaks of distances between objects; on composed
         # regions (single-precision mesh booleans) the region-level distance is only tied to the model (C), not yet
